@@ -153,7 +153,9 @@ def register(claim):
         'Trusted: python ast, AVN interpreter and primitive table, opaque contracts for the branchy '
         'trigonometric joint-frame helpers and the trailing joint-coordinate read-back (momentum does '
         'not depend on them), finite intermediate values.  Not decided: rest over more than one step and for the positional 2-dof '
-        'kernel; multi-body contact averaging; conservation to round-off as a number.',
+        'kernel; multi-body contact averaging; conservation to round-off as a number.  Known finding D11 (known_findings.json): '
+        'the rest clause fails on the pinned tree for a hinge-THEN-slide stack in the spring pipeline; that rule instance prints '
+        'KNOWN-FINDING, every other instance is enforced.',
         'algebraic value numbering of the whole step, decided by random interpretation in GF(p)',
         'DESIGN.md §3 C04')
 
